@@ -105,9 +105,9 @@ Proof.
 Qed.
 
 Lemma lasso_attempts k :
-  n_attempts (fst (run c0 (lasso k) [] [])) = 22 + 2 * k /\ n_backoffs (fst (run c0 (lasso k) [] [])) = 0.
+  n_attempts (fst (run_before_fix c0 (lasso k) [] [])) = 22 + 2 * k /\ n_backoffs (fst (run_before_fix c0 (lasso k) [] [])) = 0.
 Proof.
-  unfold run, run_gen, lasso. change (c_read c0 && negb (c_val c0)) with false. cbv iota.
+  unfold run_before_fix, run_gen, lasso. change (c_read c0 && negb (c_val c0)) with false. cbv iota.
   destruct (prefix_attempts (cyc' k)) as [A B]. destruct (cyc'_attempts k 20) as [A' B']. rewrite A, B, A', B'. split; lia.
 Qed.
 
